@@ -147,7 +147,7 @@ check('C06', 'exploration',
       'TLA+ model of interface assembly (TLC, exhaustive) + trace validation of real schemas against its closed forms + XML Schema processor as judge of every emitted document',
       'DESIGN.md 4/C06')
 
-check('exploration',
+check('C02', 'exploration',
       'SpyneDictDoc.tla states the conventions of JsonDocument / YamlDocument / MessagePackDocument / MessagePackRpc as an encoder from '
       '(type, value, configuration) to an abstract document tree (maps as sets of pairs; wrappers, positional form, number / string / '
       'bin kinds, the MessagePack integer range). SpyneDictCases.DictCases (the SpyneSignatures templates plus 64-bit boundary integers, '
